@@ -1,7 +1,7 @@
 """C05 -- error level never below the request; boosting keeps the version."""
 import common, enc, gen, sweep, encprop
 
-TOP = ['theories/Props/C05.v', 'theories/Tie/TieTables.v']
+TOP = ['theories/Props/C05.v', 'theories/Tie/TieTables.v', 'theories/Tie/TieBoost.v']
 WANT = ('decode',)
 RULE = ('exact-fit and fit+1 lengths for every (version, level -> next level) threshold, requested level x boost_error x micro; '
         'each case is also encoded with boost_error=False to compare versions; verdict by the extracted boost specification')
